@@ -683,8 +683,29 @@ func ruleP12NowApplied(p *Prog, r *Report) {
 			}
 			msg, how := p.checkForwarding(c.Parent(), e, lastResultIdx)
 			r.check(msg == "", rule, key, p.instrPos(c), "ApplyNow is called and its error returned ("+how+")", "ApplyNow's error is not returned: "+msg)
-			// the records closed are the ones evaluated: argument derives from ReadInputs (possibly filtered)
+			// nothing is totalled before the open ranges are closed (CloseOpenRanges works in
+			// place: a total taken earlier from the very same slice lacks the running entry)
 			_ = runs
+			for _, evName := range []string{"Total", "ShouldTotalSum", "AggregateTotalsByTags"} {
+				ev := p.fn("klog/service", evName)
+				if ev == nil {
+					continue
+				}
+				for _, vc := range virtualCallsTo(c.Parent(), ev) {
+					at := vc.where()
+					if at.Parent() != c.Parent() {
+						continue
+					}
+					var site ssa.Instruction = vc.call
+					if len(vc.chain) > 0 {
+						site = vc.chain[0]
+					}
+					after := c.Block().Dominates(at) && (c.Block() != at || instrIndex(c) < instrIndex(site))
+					if !after {
+						r.bad(rule, key+":before-"+evName, p.instrPos(site), "%s is evaluated at a point that --now has not (always) been applied before: the figure lacks the running entry that the rest of the output counts", evName)
+					}
+				}
+			}
 		}
 	}
 	for name, calls := range p.argsApplied(r, rule, "DecimalArgs", "Apply") {
